@@ -30,6 +30,10 @@ def run_one(m, props, scale):
         if src.count(m["old"]) < 1:
             return {"error": "pattern not found"}
         src = src.replace(m["old"], m["new"]) if m.get("all") else src.replace(m["old"], m["new"], 1)
+        for o, n in m.get("more", []):
+            if src.count(o) < 1:
+                return {"error": "pattern (more) not found"}
+            src = src.replace(o, n, 1)
         open(path, "w").write(src)
         for p in props:
             env = dict(os.environ, VERIF_REPO=tmp, VERIF_BUDGET_SCALE=str(scale), VERIF_EVIDENCE_DIR=os.path.join(tmp, "ev"))
